@@ -289,3 +289,58 @@ class SSLSocket:
 
     def close(self):
         ghost.socket_closed = True
+
+
+class ThreadLock:
+    """threading.Lock as seen by the calling thread.  `held_by_me`; other threads may hold it at any time (not tracked:
+    a non-blocking acquire simply may fail).  Blocking with a timeout t >= 0 waits at most t and gives up only after the whole
+    t has elapsed (ghost.waited / ghost.now advance by the time blocked); blocking without timeout eventually succeeds
+    (liveness of the other holders is assumed).  Mutual exclusion is the primitive's own guarantee (assumed)."""
+
+    def __init__(self):
+        self.held_by_me = False
+
+    def acquire(self, blocking=True, timeout=-1):
+        require(not self.held_by_me, "non-reentrant-lock-not-acquired-twice-by-the-same-thread (deadlock otherwise)")
+        if not blocking:
+            if nondet_bool():
+                return False
+            self.held_by_me = True
+            return True
+        if timeout < 0:
+            d = nondet_real()
+            assume(d >= 0)
+            ghost.now = ghost.now + d
+            ghost.unbounded_waits = ghost.unbounded_waits + 1
+            self.held_by_me = True
+            return True
+        d = nondet_real()
+        assume(d >= 0)
+        assume(d <= timeout)
+        ghost.waited = ghost.waited + d
+        ghost.now = ghost.now + d
+        if nondet_bool():
+            assume(d == timeout)
+            return False
+        self.held_by_me = True
+        return True
+
+    def release(self):
+        require(self.held_by_me, "release-of-a-lock-held-by-this-thread (RuntimeError otherwise)")
+        self.held_by_me = False
+
+    def __enter__(self):
+        return self.acquire()
+
+    def __exit__(self, et, ev, tb):
+        self.release()
+        return False
+
+
+def make_thread_lock():
+    return ThreadLock()
+
+
+def getpid():
+    """os.getpid(): some process id (a fork changes it)."""
+    return nondet_int()
